@@ -30,6 +30,7 @@ type NodeSpec struct {
 	ForkLen         int    `json:"fork_len,omitempty"` // forker: length of its own (lighter) branch
 	Cap             int    `json:"cap,omitempty"`      // reply cap (0 = 2000)
 	DisconnectAtMsg int    `json:"disconnect_at_msg,omitempty"`
+	DropAfterHeight int    `json:"drop_after_height,omitempty"` // the node closes the connection right after the getheaders answer that contains this height
 	Silent          bool   `json:"silent,omitempty"`       // never answers getheaders (stall)
 	Inbound         bool   `json:"inbound,omitempty"`      // node dials the service instead of being dialled
 	ForbiddenAt     int    `json:"forbidden_at,omitempty"` // forbidden: height at which its chain carries the forbidden header
@@ -45,6 +46,7 @@ type NodeSpec struct {
 // AnnounceSpec is one announcement round after the initial sync.
 type AnnounceSpec struct {
 	Blocks int    `json:"blocks"`          // honest chain grows by this many blocks first
+	Reorg  int    `json:"reorg,omitempty"` // before growing, the honest network reorganises: its last Reorg blocks are replaced by Reorg+1 others (then Blocks more)
 	Mode   string `json:"mode"`            // inv | headers | conformant
 	Nodes  []int  `json:"nodes,omitempty"` // which nodes announce (indices); empty = honest only. Laggards catch up to the honest tip first.
 }
@@ -402,6 +404,7 @@ func Execute(s *Scenario, dir string) (res *Result) {
 				n.Cap = ns.Cap
 			}
 			n.DisconnectAtMsg = ns.DisconnectAtMsg
+			n.DropAfterHeight = ns.DropAfterHeight
 			n.Silent = ns.Silent
 			n.MaxAccepts = ns.MaxAccepts
 			n.MaxLive = ns.MaxLive
@@ -576,7 +579,7 @@ func Execute(s *Scenario, dir string) (res *Result) {
 	}
 	// "at least one honest peer stays reachable": the service dials further addresses only when its
 	// connection manager's retry timer fires (seconds), so wait until the honest node is connected.
-	if s.Nodes[0].Kind == "honest" && s.Nodes[0].DisconnectAtMsg == 0 && len(x.nodes[0].Live()) == 0 {
+	if s.Nodes[0].Kind == "honest" && s.Nodes[0].DisconnectAtMsg == 0 && s.Nodes[0].DropAfterHeight == 0 && len(x.nodes[0].Live()) == 0 {
 		if !x.waitFor(func() bool { return len(x.nodes[0].Live()) > 0 }, 75*time.Second) {
 			res.Verdict, res.What = "inconclusive", "the service did not connect to the honest node within 75 s"
 			res.Events = x.rig.Log.Tail(40)
@@ -619,7 +622,7 @@ func Execute(s *Scenario, dir string) (res *Result) {
 	}
 	if s.WaitReconnect {
 		for i, ns := range s.Nodes {
-			if ns.DisconnectAtMsg > 0 {
+			if ns.DisconnectAtMsg > 0 || ns.DropAfterHeight > 0 {
 				n := x.nodes[i]
 				// the service re-dials a dropped outbound peer (immediately or after the retry interval)
 				if !x.waitFor(func() bool { return len(n.Conns()) >= 2 && len(n.Live()) > 0 }, 40*time.Second) {
@@ -636,6 +639,11 @@ func Execute(s *Scenario, dir string) (res *Result) {
 	x.scenarioSpecificChecks("after-initial-sync")
 	// announcements
 	for ai, a := range s.Announce {
+		if a.Reorg > 0 && a.Reorg < len(x.w.Honest) {
+			x.w.Honest = append([]refmodel.Hdr(nil), x.w.Honest[:len(x.w.Honest)-a.Reorg]...)
+			x.w.ExtendHonest(a.Reorg+1, genesis)
+			x.count("honest_chain_reorganisations", 1)
+		}
 		x.w.ExtendHonest(a.Blocks, genesis)
 		who := a.Nodes
 		if len(who) == 0 || x.ann != 0 {
